@@ -3304,6 +3304,9 @@ def _keys_to_items(source: str) -> Iterable[Tuple[ast.AST, ast.AST]]:
         if not value_target_subscripts:
             continue
 
+        if any(isinstance(s.ctx, (ast.Store, ast.Del)) for s in value_target_subscripts):
+            continue  # d[k] = ... must stay a write to the dict
+
         node_target_name = f"{core.unparse(value)}_{core.unparse(target)}"
         node_target_name = re.sub("[^a-zA-Z]", "_", node_target_name)
         yield (
@@ -3380,6 +3383,9 @@ def _for_keys_to_items(source: str) -> Iterable[Tuple[ast.AST, ast.AST]]:
 
         if not value_target_subscripts:
             continue
+
+        if any(isinstance(s.ctx, (ast.Store, ast.Del)) for s in value_target_subscripts):
+            continue  # d[k] = ... must stay a write to the dict
 
         node_target_name = f"{core.unparse(value)}_{core.unparse(target)}"
         node_target_name = re.sub("[^a-zA-Z]", "_", node_target_name)
